@@ -20,6 +20,7 @@ import (
 
 type thread struct {
 	id     int
+	goid   uint64
 	name   string
 	resume chan struct{}
 	done   bool
@@ -46,6 +47,14 @@ type Sched struct {
 	FairAfter int
 	last      int
 	streak    int
+	// active is the thread that has been resumed and has not parked again. Exactly one
+	// scheduled thread runs at a time and the driving goroutine is blocked meanwhile, so
+	// a hook that finds active set was called by that thread; looking the caller up by
+	// goroutine id (a stack walk) at every hook was 80% of the run time. Every 127th
+	// hook still verifies the identity; a mismatch is a harness error (Misuse).
+	active atomic.Pointer[thread]
+	hooks  uint64
+	Misuse string
 }
 
 var cur atomic.Pointer[Sched]
@@ -78,8 +87,9 @@ func (s *Sched) Go(name string, fn func()) int {
 	s.threads = append(s.threads, t)
 	ready := make(chan struct{})
 	go func() {
+		t.goid = goid()
 		s.mu.Lock()
-		s.byGoid[goid()] = t
+		s.byGoid[t.goid] = t
 		s.mu.Unlock()
 		close(ready)
 		<-t.resume
@@ -101,10 +111,20 @@ func current() (*Sched, *thread) {
 	if s == nil {
 		return nil, nil
 	}
-	g := goid()
-	s.mu.Lock()
-	t := s.byGoid[g]
-	s.mu.Unlock()
+	t := s.active.Load()
+	if t == nil {
+		return s, nil // nobody has been resumed: the caller is not a scheduled thread
+	}
+	if n := atomic.AddUint64(&s.hooks, 1); n%127 == 0 {
+		if g := goid(); g != t.goid {
+			s.mu.Lock()
+			if s.Misuse == "" {
+				s.Misuse = fmt.Sprintf("goroutine %d reached a scheduling hook while thread %s (goroutine %d) was running", g, t.name, t.goid)
+			}
+			s.mu.Unlock()
+			return s, nil
+		}
+	}
 	return s, t
 }
 
@@ -214,8 +234,10 @@ func (s *Sched) Run(choose func(cands []int, last int) int, maxSteps int) (quies
 		}
 		s.last = t.id
 		wasIdle := t.idle
+		s.active.Store(t)
 		t.resume <- struct{}{}
 		<-s.parked
+		s.active.Store(nil)
 		if wasIdle && t.idle && !t.done {
 			t.polled = true
 		} else {
@@ -243,8 +265,10 @@ func (s *Sched) Finish(maxSteps int) error {
 		for _, t := range s.threads {
 			if !t.done {
 				live++
+				s.active.Store(t)
 				t.resume <- struct{}{}
 				<-s.parked
+				s.active.Store(nil)
 			}
 		}
 		if live == 0 {
